@@ -3,6 +3,8 @@ package checks
 import (
 	"bytes"
 	"fmt"
+	"os"
+	"strings"
 
 	"verif/mc/enum"
 	"verif/mc/synt"
@@ -17,6 +19,20 @@ var c06Bytes = []string{
 	"+", "-", "/", ":", ",", "%", "@", "^", ".",
 	"a", "1", " ", "\t", "\n", "\r", "\x00", "\x80", "\xc3", "\xff", "é",
 }
+
+// c06BytesLong is the alphabet of the longest byte strings of the thorough
+// tier (length 4): c06Bytes without ten items that need a longer context to
+// mean anything.
+var c06BytesLong = func() []string {
+	drop := map[string]bool{"+": true, ",": true, "%": true, "^": true, ".": true, "/": true, "\r": true, "\x80": true, "\t": true, "~": true}
+	var out []string
+	for _, b := range c06Bytes {
+		if !drop[b] {
+			out = append(out, b)
+		}
+	}
+	return out
+}()
 
 // c06Tokens is the token-level alphabet: reserved words, operators, and the
 // openers/closers of every variant.
@@ -57,7 +73,7 @@ func c06Space(c *vc.Ctx) *c06SpaceT {
 		MutMaxLen:    vc.Pick(c, 3, 10),
 		MutDelMaxLen: vc.Pick(c, 20, 400),
 		PumpLen:      2, PumpK: 64,
-		CostLen: vc.Pick(c, 2, 3), Closers: !c.Quick(),
+		CostLen: 2, Closers: !c.Quick(),
 		counts: map[string]int{},
 	}
 }
@@ -73,14 +89,14 @@ func (s *c06SpaceT) setFor(lens [3]int, n int) int {
 }
 
 func (s *c06SpaceT) describe() string {
-	return fmt.Sprintf("inputs: (a) every byte string over the %d-item alphabet %q of length <=%d under the full configuration set, <=%d under the reduced set, <=%d under the minimal set; "+
+	return fmt.Sprintf("inputs: (a) every byte string over the %d-item alphabet %q of length <=%d under the full configuration set, <=%d under the reduced set, <=%d under the minimal set (length 4 over the %d items %q); "+
 		"(b) every sequence over the %d-token alphabet %q, joined both with single spaces and with nothing, of <=%d tokens (full set), <=%d (reduced), <=%d (minimal); "+
 		"(c) every program of the syntax test corpus (%d string literals of syntax/*_test.go; set %d) and its 1-edit mutants: every program of <=%d bytes with each byte deleted, and for programs of <=%d bytes also each byte replaced by and each gap filled with each of %d bytes (minimal set); "+
 		"(d) pumped inputs u v^%d x for every split w=u.v.x (v non-empty) of every byte string w of length <=%d, and for every token v (followed by nothing, a space or a newline) after each of %d opening contexts u (quick: the first 10; closers x: %v) (minimal set); balanced nests o^k core c^k for %d opener/closer pairs, k in {2,8,%d} (full set). "+
 		"Full configuration set = 5 variants x KeepComments{off,on} x StopAt{none,\"$$\"} x RecoverErrors{0,1,3} x {Parse, StmtsSeq, WordsSeq, InteractiveSeq, Document, Arithmetic} = 360; reduced = 5 variants x 6 entry points x 4 option triples = 120; minimal = x 2 option triples = 60 (every option value with every variant and entry point); an iterator entry point that yields anything is run again with a consumer that stops after the first item. "+
 		"Oracle per (input, configuration): the call returns without panic and within the hang limit; every non-nil tree it returns or yields with a nil error (including trees with recovered positions) goes through Walk (Pos/End of every node), Print under %d printer configurations (default; all layout options on with KeepPadding; Minify; SingleLine), typedjson.Encode and Simplify without panic; within one input, trees with equal (node types, positions, literal values, default printed text) are consumed once. "+
-		"(e) cost growth: for every split of every byte string of length <=%d and the token families of (d), under 5 variants x 6 entry points, the parse cost of u v^k x (heap objects, heap bytes, thread CPU time if >= 2 ms) at k=1024 must be below 8x the cost at k=256 (linear: 4x, quadratic: 16x); thorough also k=4096 vs 1024 for |w|<=2 and token families. distinct = distinct (entry point, items, node count, error message) outcomes",
-		len(c06Bytes), c06Bytes, s.Bytes[2], s.Bytes[1], s.Bytes[0], len(c06Tokens), c06Tokens, s.Tokens[2], s.Tokens[1], s.Tokens[0],
+		"(e) cost growth: for every split of every byte string of length <=%d and the token families of (d), under 5 variants x 6 entry points, the parse cost of u v^k x (heap objects, heap bytes, thread CPU time if >= 2 ms) at k=1024 must be below 8x the cost at k=256 (linear: 4x, quadratic: 16x); thorough also every closer as suffix of the token families, and k=4096 vs 1024 for the byte-string families and the token families without closer. distinct = distinct (entry point, items, node count, error message) outcomes",
+		len(c06Bytes), c06Bytes, s.Bytes[2], s.Bytes[1], s.Bytes[0], len(c06BytesLong), c06BytesLong, len(c06Tokens), c06Tokens, s.Tokens[2], s.Tokens[1], s.Tokens[0],
 		len(synt.SyntaxCorpus()), s.CorpusSet, s.MutDelMaxLen, s.MutMaxLen, len(s.MutAlphabet), s.PumpK, s.PumpLen, len(c06PumpCtx), s.Closers, len(c06Nests), s.PumpK, len(c06PrintCfgs), s.CostLen)
 }
 
@@ -155,7 +171,11 @@ func c06Pump(u, v, x []byte, k int) []byte {
 }
 
 func (s *c06SpaceT) gen(emit func(c06Case)) {
+	kinds := os.Getenv("VERIF_C06_KINDS") // development aid: only these input kinds
 	put := func(kind string, src []byte, set int) {
+		if kinds != "" && !strings.Contains(kinds, kind) {
+			return
+		}
 		s.counts[kind]++
 		emit(c06Case{Kind: kind, Src: src, Text: fmt.Sprintf("%q", src), Set: set})
 	}
@@ -248,20 +268,9 @@ func (s *c06SpaceT) gen(emit func(c06Case)) {
 		}
 	}
 	last = true
-	// (a), longest
-	enum.Seqs(c06Bytes, s.Bytes[0], func(w []string) {
-		if (len(w) == s.Bytes[0]) != last {
-			return
-		}
-		var b []byte
-		for _, x := range w {
-			b = append(b, x...)
-		}
-		put("bytes", b, s.setFor(s.Bytes, len(w)))
-	})
 	// (b), longest
 	enum.Seqs(c06Tokens, s.Tokens[0], func(w []string) {
-		if len(w) == 0 || (len(w) == s.Tokens[0]) != last {
+		if len(w) != s.Tokens[0] {
 			return
 		}
 		for _, sep := range []string{" ", ""} {
@@ -277,5 +286,20 @@ func (s *c06SpaceT) gen(emit func(c06Case)) {
 				break
 			}
 		}
+	})
+	// (a), longest
+	alpha := c06Bytes
+	if s.Bytes[0] >= 4 {
+		alpha = c06BytesLong
+	}
+	enum.Seqs(alpha, s.Bytes[0], func(w []string) {
+		if len(w) != s.Bytes[0] {
+			return
+		}
+		var b []byte
+		for _, x := range w {
+			b = append(b, x...)
+		}
+		put("bytes", b, s.setFor(s.Bytes, len(w)))
 	})
 }
